@@ -8,6 +8,8 @@ import (
 	"net/netip"
 	"net/url"
 	"strings"
+
+	"golang.org/x/net/idna"
 )
 
 var ErrPolicyDenied = errors.New("egress policy denied")
@@ -60,6 +62,15 @@ func checkEgressPolicyURL(ctx context.Context, u *url.URL, policy EgressPolicy, 
 	if host == "" {
 		return fmt.Errorf("%w: empty host", ErrPolicyDenied)
 	}
+	// net/http connects to the IDNA (punycode) form of a non-ASCII host name,
+	// so that is the name the rules have to judge.
+	if !isASCII(host) {
+		ascii, err := idna.Lookup.ToASCII(host)
+		if err != nil {
+			return fmt.Errorf("%w: invalid host %q", ErrPolicyDenied, host)
+		}
+		host = ascii
+	}
 
 	needIPs := policy.DNSRebindProtection || hasCIDRRules(policy)
 	ips, err := resolveHostIPs(ctx, host, needIPs, r)
@@ -84,6 +95,15 @@ func checkEgressPolicyURL(ctx context.Context, u *url.URL, policy EgressPolicy, 
 	}
 
 	return nil
+}
+
+func isASCII(s string) bool {
+	for i := 0; i < len(s); i++ {
+		if s[i] >= 0x80 {
+			return false
+		}
+	}
+	return true
 }
 
 func hasCIDRRules(policy EgressPolicy) bool {
